@@ -180,6 +180,54 @@ def native_mbx_recv(name, conc, notes):
             "detail": f"real Terminal.mbx_recv on a full receive mailbox: {bad[:3]}"}
 
 
+def native_mbx_send(name, conc, notes):
+    """the real mbx_send against a simulated send mailbox (sync manager 0):
+    mails of every length up to the mailbox's capacity"""
+    from ebpfcat.ethercat import ECCmd, MBXType, Terminal
+    from ebpfcat.lock import MailboxLock
+    bad = []
+    for sz in (32, 48):
+        for n in range(0, sz - 12 + 1):
+            mem, state = bytearray(sz), {"full": False}
+
+            class EC:
+                async def roundtrip(self, cmd, pos, offset, *args, data=None, idx=0):
+                    if cmd is ECCmd.FPRD:
+                        return (0,)
+                    f = "<" + "".join(a for a in args if isinstance(a, str))
+                    b = struct.pack(f, *[a for a in args if not isinstance(a, str)])
+                    b += bytes(data) if isinstance(data, int) else (data or b"")
+                    if state["full"]:
+                        return ()
+                    o = offset - 0x1000
+                    mem[o:o + len(b)] = b
+                    state["full"] = o <= sz - 1 < o + len(b)
+                    return ()
+            t = object.__new__(Terminal)
+            t.ec, t.position, t.name = EC(), 5, "t"
+            t.mbx_in_off, t.mbx_in_sz, t.mbx_out_off, t.mbx_out_sz = 0x1100, sz, 0x1000, sz
+            t.mbx_lock = MailboxLock()
+            payload = bytes(range(1, n + 1))
+
+            async def go():
+                async with t.mbx_lock:
+                    await t.mbx_send(MBXType.COE, "HBHB", 0x1234, 0x2f, 0x8000, 1, data=payload)
+            try:
+                asyncio.run(go())
+            except Exception as e:      # noqa
+                bad.append(f"mailbox {sz}, {n} data bytes: {type(e).__name__}: {e}")
+                continue
+            want = struct.pack("<HHBBHBHB", 6 + n, 0, 0, 3, 0x1234, 0x2f, 0x8000, 1) + payload
+            if not state["full"]:
+                bad.append(f"mailbox {sz}, {n} data bytes (mail ends {sz - 12 - n} bytes before the end): the last "
+                           f"byte of the mailbox is never written, the terminal never takes the mail")
+            elif bytes(mem[:len(want)]) != want:
+                bad.append(f"mailbox {sz}, {n} data bytes: the mailbox holds {bytes(mem[:len(want)]).hex()}, "
+                           f"sent {want.hex()}")
+    return {"inputs": {"mailbox sizes": [32, 48], "data lengths": "0 .. capacity"}, "reproduced": bool(bad),
+            "detail": f"real Terminal.mbx_send on a simulated send mailbox: {bad[:3]}"}
+
+
 def run(tier, seed):
     from contracts import c16_sdo as S
     rep = R.Report("C16", tier, seed)
@@ -198,6 +246,14 @@ def run(tier, seed):
     finally:
         api.REGISTRY.clear()
         api.REGISTRY.update(saved)
+    api.REGISTRY[S.MbxOutBus.qualname] = S.MbxOutBus()
+    try:
+        api.verify(S.mbx_send_contract(), rep, replay=native_mbx_send)
+    finally:
+        api.REGISTRY.clear()
+        api.REGISTRY.update(saved)
+    rep.assume("send mailbox = memory of sync manager 0: the terminal takes the mail when the mailbox's last byte is "
+               "written; writes to a full mailbox are ignored; the mailbox is empty when mbx_send starts")
     rep.assume("receive mailbox = memory of sync manager 1, handed back when its last byte is read; a mail fits its "
                "mailbox (ETG.1000.4)")
     S.install()
